@@ -22,7 +22,7 @@ os.makedirs("/tmp/reseed", exist_ok=True)
 def one(sid):
     d = "/verif/seeded/" + sid
     meta = json.load(open(d + "/meta.json"))
-    if meta.get("superseded"):
+    if meta.get("superseded") or str(meta.get("status", "")).startswith("superseded"):
         return sid, "superseded", 0, ""
     prop = sid.split("-")[0]
     scratch = "/tmp/reseed/" + sid
